@@ -105,6 +105,46 @@ CLAIMS = {
         design="6 C07",
         technique="explicit TLA+ spec + TLC model checking; TLC-generated histories replayed on the code and judged by TLC (trace validation)",
     ),
+    "C08": dict(
+        spec="FsParams.tla / FsParamsGen.tla / FsParamsJudge.tla",
+        text="TLC model-checks the parameter specification (Bind == Literal: a bound value reads back / matches as itself, the "
+        "statement keeps its shape, nothing else is touched; the paramstyle is the connect-time snapshot) and enumerates the case "
+        "space paramstyle x passing form x position x 27 value classes x cursor, plus sequences of binds on one cursor; each case "
+        "is concretised from an edge list by seed, executed on a real connection and judged by TLC.",
+        level="model_checking",
+        design="6 C08",
+        technique="explicit TLA+ spec + TLC enumeration of the abstract case space; cases replayed on the code and judged by TLC (values inside a class are sampled)",
+    ),
+    "C06": dict(
+        spec="FsDescr.tla / FsDescrGen.tla / FsDescrJudge.tla",
+        text="TLC model-checks the description specification (Available after every execute; one entry per column with the "
+        "Snowflake type code / precision / scale of the declared type; Python classes of fetched values agree; describe(q) = "
+        "description after execute(q) without executing; reading description is a stutter step) over 44 statement kinds x the "
+        "fetch position, incl. a query whose shape changes with DDL and transactions; every transition, all operation sequences "
+        "over small vocabularies and random walks are replayed on a real DictCursor and judged by TLC.",
+        design="6 C06",
+        technique="explicit TLA+ spec + TLC model checking; TLC-generated histories replayed on the code and judged by TLC (trace validation)",
+    ),
+    "C10": dict(
+        spec="FsFuncs.tla / FsFuncsGen.tla / FsFuncsJudge.tla",
+        text="The documented rules are TLA+ operators (proleptic Gregorian calendar, DATEADD month clamping, DATEDIFF boundary "
+        "counting, round-half-away TO_DECIMAL with overflow, EQUAL_NULL, TRIM family, REGEXP_SUBSTR / REGEXP_REPLACE over three "
+        "pattern shapes, VALUES naming, ARRAY_AGG ordering) plus value-free relations (SHA2 variants and FIPS vectors, seeded "
+        "RANDOM / SAMPLE determinism, IDENTIFIER, join alias reuse). TLC checks consistency theorems of the oracle, enumerates "
+        "the argument grids x expression contexts, every case is run on the code and judged by TLC; the calendar and rounding "
+        "operators are first cross-checked against Python's datetime / decimal on the whole grid.",
+        design="6 C10 (pure-function exception of the method)",
+        technique="rules transcribed into TLA+ operators, TLC enumerates the case space, one implementation run per case judged by TLC",
+    ),
+    "C11": dict(
+        spec="FsJson.tla / FsJsonGen.tla / FsJsonJudge.tla",
+        text="JSON documents are recursive TLA+ values; Get / casts / UPPER-LOWER-TRIM / ARRAY_SIZE / OBJECT_CONSTRUCT / "
+        "ARRAY_CONSTRUCT / SPLIT / FLATTEN / operator contexts are TLA+ operators ('what navigating the same document gives'). "
+        "TLC enumerates documents x paths (present, missing, wrong kind) x access syntax x cast x wrapper x source x operator, "
+        "each case is run on the code (table column and PARSE_JSON literal) and judged by TLC after parsing the JSON text.",
+        design="6 C11 (pure-function exception of the method)",
+        technique="rules transcribed into TLA+ operators, TLC enumerates the case space, one implementation run per case judged by TLC",
+    ),
 }
 
 
